@@ -58,7 +58,11 @@ def rk_bool(eng, st, pre):
 
 
 def rk_bytes(eng, st, pre):
-    return eng.fresh_bytes(st, 'res')
+    # a fresh *view*: array, offset and length are all unknown (the ensures clauses pin them)
+    arr, off, ln = fresh('res_arr', t.ARR), fresh('res_off', t.INT), fresh('res_len', t.INT)
+    st.assume(t.ge(ln, t.ZERO))
+    eng.assume_byte_range(st, arr, off, ln)
+    return VBytes(arr, off, ln)
 
 
 def rk_none(eng, st, pre):
@@ -79,6 +83,11 @@ class FnContract:
         self.self_fields = self_fields
         self.stream_arg = 'stream'
         self.lemmas = tuple(lemmas)
+        self.iface = None
+        self.default_loop = None
+        self.modifies_heap = False
+        self.generic = False
+        self.variants = [None]
 
     # ------------------------------------------------------------------ signature
     def bind(self, eng, node, selfv, args, kws, st):
@@ -131,6 +140,35 @@ class FnContract:
     def use(self, eng, st, selfv, args, kws):
         node = eng.src.find(self.qual)
         bound = self.bind(eng, node, selfv, args, kws, st)
+        kinds = getattr(self.setup, 'kinds', None) or {}
+        for an, kd in kinds.items():
+            v = bound.get(an)
+            if isinstance(v, VParam):
+                v = eng.models.param_const(eng, v, st) if st.known(t.not_(v.callable_t)) is True else v
+            if isinstance(v, VDyn) and kd in ('bytes', 'int', 'bool'):
+                if kd == 'bytes':
+                    cond = t.app('(_ is VBytes)', t.BOOL, v.t)
+                    nv = VBytes(t.app('barr', t.ARR, v.t), t.app('boff', t.INT, v.t), t.app('blen', t.INT, v.t))
+                elif kd == 'int':
+                    cond = t.app('isint', t.BOOL, v.t)
+                    nv = VInt(t.app('toint', t.INT, v.t))
+                else:
+                    cond = t.TRUE
+                    nv = VBool(t.app('truthy', t.BOOL, v.t))
+                eng.emit(st, '%s/call %s/argument-%s-is-%s' % (eng.fnname, self.qual.split(':')[1], an, kd), cond, kind='call-pre', tags=self.tags)
+                st.assume(cond)
+                if kd == 'bytes':
+                    st.assume(t.ge(nv.len, t.ZERO))
+                    eng.assume_byte_range(st, nv.arr, nv.off, nv.len)
+                bound[an] = nv
+            elif isinstance(v, VRef) and kd == 'bytes':
+                b = eng.models.as_bytes(eng, v, st)
+                if b is not None:
+                    bound[an] = b
+            elif kd == 'bool' and v is not None and not isinstance(v, VBool):
+                bound[an] = VBool(eng.truth(v, st))
+            elif kd == 'dyn' and v is not None and not isinstance(v, VDyn):
+                bound[an] = VDyn(eng.to_dyn(v, st))
         pre = View(eng, st, selfv, bound)
         for label, cond in self.requires(pre):
             eng.emit(st, '%s/call %s/requires/%s' % (eng.fnname, self.qual.split(':')[1], label), cond, kind='call-pre', tags=self.tags)
@@ -152,6 +190,8 @@ class FnContract:
                 v = bound.get(name)
                 if isinstance(v, VRef):
                     havoc_object(eng, s2, v, 'post_' + name)
+            if self.modifies_heap and eng.models.interface is not None:
+                eng.models.interface.havoc_heap(eng, s2)
             post = View(eng, s2, selfv, bound)
             if case.kind == 'return':
                 res = case.rkind(eng, s2, pre2) if case.rkind else NONE
@@ -178,7 +218,7 @@ class FnContract:
         return out
 
     # ------------------------------------------------------------------ VERIFY
-    def verify(self, src, make_models, stream_model='bytesio'):
+    def verify(self, src, make_models, stream_model='bytesio', variant=None):
         """-> VerifyResult with obligations for every path end and every loop"""
         node = src.find(self.qual)
         models = make_models(stream_model)
@@ -186,8 +226,19 @@ class FnContract:
         models.this_module = mod
         eng = Engine(src, models, loops=self.loops, fnname=self.qual.split(':')[1], module=mod)
         eng.frame_violations = []
+        eng.default_loop = self.default_loop
+        if models.interface is not None and self.iface:
+            models.interface.configure(**self.iface)
         st = State()
-        selfv, args = self.setup(eng, st, node, stream_model)
+        eng.variant = variant
+        try:
+            selfv, args = self.setup(eng, st, node, stream_model)
+        except OutOfReach as e:
+            res = VerifyResult(self, stream_model)
+            res.out_of_reach = 'setup: %s' % e
+            return res
+        for ln in src.local_names(node):
+            st.env[ln] = UNBOUND
         if selfv is not None:
             st.env['self'] = selfv
         for k, v in args.items():
@@ -265,6 +316,9 @@ class FnContract:
                     label, cond = cl[0], cl[1]
                     tags = cl[2] if len(cl) > 2 else (c.tags or self.tags)
                     eng.emit(s2, '%s/path%d/%s/%s' % (fname, pi, c.name, label), cond, kind='clause', tags=tags, meta={'origin': origin})
+                    # clauses are proved in order: an earlier clause (with its own obligation) may be used by later ones
+                    s2 = s2.clone()
+                    s2.assume(cond)
         for msg, fst in eng.frame_violations:
             eng.emit(fst, '%s/frame/%s' % (fname, msg), t.FALSE, kind='frame', tags=('C17',))
         res.obligations = eng.obls
